@@ -270,7 +270,16 @@ EXTRA_TEXT = {
     'C12': " (M8b, SIB1, SIB2) sibling agreement of the series and exact classes (normalisers, shared assignments, order of "
            "dependent statements).",
     'C19': " (SIB1, SIB2) SphericalEngine::Value and SphericalEngine::Circle, which share almost all of their assignments, "
-           "do not differ by the signature of a slip and order their dependent statements alike.",
+           "do not differ by the signature of a slip and order their dependent statements alike. (X7 conversions) no time or "
+           "other floating value that may be NaN or infinite is converted to an integer in the magnetic/gravity classes "
+           "(found and fixed: MagneticModel converted floor(t / dt0) before clamping).",
+    'C13': " (X7 conversions, library-wide) in every library function no floating value that may be NaN or infinite where it is "
+           "converted is converted to an integer (43 conversions examined by the interval analysis with NaN/infinity flags); "
+           "this found and fixed seven undefined conversions (Geoid::height, Geoid::CacheArea, MagneticModel, DMS::Encode, "
+           "MGRS::LatitudeBand via StandardZone and MGRS::Forward, Intersect::All). X4 judges a private member by the "
+           "arguments its call sites can pass.",
+    'C20': " (X7 conversions) no floating value that may be NaN or infinite is converted to an integer in Geoid "
+           "(found and fixed: height(lat, inf) and CacheArea with a latitude outside [-90, 90]).",
     'C04': " (OFFS) Symbolic evaluation of UTMUPS::Forward/Reverse: the false easting/northing entries added after projecting are "
            "the ones subtracted before unprojecting, indexed alike by (projection, hemisphere). (H2) Scale homogeneity: x, y and k returned by TransverseMercator/PolarStereographic::Forward have degree 1 in "
            "the scale k0 on every path, gamma degree 0; Reverse returns k of degree 1 and angles of degree 0.",
